@@ -3,6 +3,8 @@
    automaton, proves that every model function preserves it and concludes the four policy statements. *)
 Require Import LV.Common.Bytes LV.Gen.Gen_neg LV.Model.NegState LV.Model.NegModel LV.Spec.NegSpec.
 Require Import LV.Proofs.NegFrame_C02.
+(* only the fact "DISABLE_TLS excludes MANDATORY_TLS" (Inv_Df) of the lifecycle invariant is used; not imported, to keep the name spaces apart *)
+Require LV.Proofs.NegFrame_C13.
 Local Open Scope Z_scope.
 
 (* ------------------------------------------------------------------ check_run *)
@@ -89,7 +91,8 @@ Record LInv (s : state) : Prop := mkLInv {
            (forall i, In i (ik s) -> i = IKLegacy) /\ ~ hasTMF s;
   li_STUB : (oh s = OpenStub \/ oh s = OpenRaw) -> is_raw s = true;
   li_COMP : oh s = OpenComponent ->
-            (forall k, In k (hk s) -> is_baseh k = true) /\ (forall i, In i (ik s) -> i = IKLegacy) /\ ~ hasTMF s;
+            (forall k, In k (hk s) -> is_baseh k = true) /\ (forall i, In i (ik s) -> i = IKLegacy) /\ ~ hasTMF s /\
+            f_tls_mandatory s = false;   (* connect_component forces DISABLE_TLS, which MANDATORY_TLS excludes *)
   li_Q : forall x, In x (sendq s) -> snd x = false -> is_neg (fst (fst x)) = false;
   li_M : f_tls_mandatory s = true ->
          (hasS s \/ exists x, In x (sendq s) /\ is_cred (fst (fst x)) = true) -> is_secured s = true;
@@ -147,6 +150,7 @@ Qed.
 Section Transfer.
 Variables s s' : state.
 Variable JL : Prop.
+Variable JH : Prop.   (* the component handshake digest may be queued: only without MANDATORY_TLS *)
 Hypothesis Edis : f_tls_disabled s' = f_tls_disabled s.
 Hypothesis Emand : f_tls_mandatory s' = f_tls_mandatory s.
 Hypothesis Elauth : f_legacy_auth s' = f_legacy_auth s.
@@ -167,8 +171,10 @@ Hypothesis Hi : forall i, In i (ik s') -> In i (ik s) \/ i = IKLegacy \/ evP s.
 Hypothesis Ht : hasTMF s' -> hasTMF s.
 Hypothesis Hs : sm_enabled s' = sm_enabled s \/ evP s.
 Hypothesis HJL : JL -> f_legacy_auth s = true /\ typ s = TClient /\ (f_tls_mandatory s = true -> is_secured s = true).
+Hypothesis HJH : JH -> f_tls_mandatory s = false.
 Hypothesis Hq : exists l, sendq s' = sendq s ++ l /\
-  Forall (fun x => benignE x \/ In (fst (fst x)) (sw s) \/ (x = (WLegacy, false, true) /\ JL)) l.
+  Forall (fun x => benignE x \/ In (fst (fst x)) (sw s) \/ (x = (WLegacy, false, true) /\ JL) \/
+                   (x = (WHandshake, false, true) /\ JH)) l.
 Hypothesis Hoff : st s <> Connected -> sendq s' = sendq s.
 Hypothesis H6 : hasTMF s' -> hasF s -> hasF s'.
 Hypothesis L : LInv s.
@@ -192,7 +198,8 @@ Proof.
   - destruct Hs; tauto.
 Qed.
 
-Lemma tr_new_entry x : In x (sendq s') -> In x (sendq s) \/ is_neg (fst (fst x)) = false \/ (x = (WLegacy, false, true) /\ JL).
+Lemma tr_new_entry x : In x (sendq s') -> In x (sendq s) \/ is_neg (fst (fst x)) = false \/ (x = (WLegacy, false, true) /\ JL) \/
+  (x = (WHandshake, false, true) /\ JH).
 Proof.
   destruct Hq as [l [E A]]. rewrite E, in_app_iff. intros [H|H]; [left; exact H|right].
   rewrite Forall_forall in A. destruct (A x H) as [B|[B|B]]; [left; exact B|left; apply (gi_S s G); exact B|right; exact B].
@@ -263,20 +270,22 @@ Proof.
     destruct (tr_early (fun k => k = HUser) C ltac:(np) D) as [X1 [X2 X3]].
     rewrite Eoh. repeat split; auto.
   - (* STUB *) intro A. rewrite Eoh in A. rewrite Eraw. apply (li_STUB s L A).
-  - (* COMP *) intro A. rewrite Eoh in A. destruct (li_COMP s L A) as [B [C D]].
-    destruct (tr_early (fun k => is_baseh k = true) B ltac:(np) C) as [X1 [X2 X3]]. repeat split; auto.
-  - (* Q *) intros x A B. destruct (tr_new_entry x A) as [X|[X|[X _]]]; [apply (li_Q s L x X B)|exact X|subst x; discriminate B].
+  - (* COMP *) intro A. rewrite Eoh in A. destruct (li_COMP s L A) as [B [C [D M0]]].
+    destruct (tr_early (fun k => is_baseh k = true) B ltac:(np) C) as [X1 [X2 X3]]. rewrite Emand. repeat split; auto.
+  - (* Q *) intros x A B. destruct (tr_new_entry x A) as [X|[X|[[X _]|[X _]]]]; [apply (li_Q s L x X B)|exact X|subst x; discriminate B|subst x; discriminate B].
   - (* M *) intros A B. rewrite Emand in A. unfold is_secured. rewrite Esec, Etlsf, Etlsp.
     destruct B as [B|[x [B1 B2]]]; [apply (li_M s L A); left; apply tr_hasS; exact B|].
-    destruct (tr_new_entry x B1) as [X|[X|[_ X]]]; [apply (li_M s L A); right; exists x; auto| |].
+    destruct (tr_new_entry x B1) as [X|[X|[[_ X]|[_ X]]]]; [apply (li_M s L A); right; exists x; auto| | |].
     + apply is_cred_neg in B2. congruence.
     + destruct (HJL X) as [_ [_ Y]]. exact (Y A).
-  - (* D *) intros A x B. rewrite Edis in A. destruct (tr_new_entry x B) as [X|[X|[X _]]]; [apply (li_D s L A x X)| |subst x; discriminate].
+    + rewrite (HJH X) in A. discriminate A.
+  - (* D *) intros A x B. rewrite Edis in A. destruct (tr_new_entry x B) as [X|[X|[[X _]|[X _]]]]; [apply (li_D s L A x X)| |subst x; discriminate|subst x; discriminate].
     intro E. rewrite E in X. discriminate.
-  - (* L *) intros x A B. rewrite Elauth, Etyp. destruct (tr_new_entry x A) as [X|[X|[_ X]]]; [apply (li_L s L x X B)| |].
+  - (* L *) intros x A B. rewrite Elauth, Etyp. destruct (tr_new_entry x A) as [X|[X|[[_ X]|[X _]]]]; [apply (li_L s L x X B)| | |].
     + rewrite B in X. discriminate.
     + destruct (HJL X) as [Y1 [Y2 _]]. auto.
-  - (* PL *) intros x A B. rewrite Egs, Egf, Eps. destruct (tr_new_entry x A) as [X|[X|[X _]]]; [apply (li_PL s L x X B)| |subst x; discriminate B].
+    + subst x. discriminate B.
+  - (* PL *) intros x A B. rewrite Egs, Egf, Eps. destruct (tr_new_entry x A) as [X|[X|[[X _]|[X _]]]]; [apply (li_PL s L x X B)| |subst x; discriminate B|subst x; discriminate B].
     rewrite B in X. discriminate.
 Qed.
 End Transfer.
@@ -285,10 +294,11 @@ Definition cK : list fld := [Fsme; Fh; Fid; Ft; Fsq; Fsmq; Fcr; FhD; FidD; Fdisc
 
 (* the generic preservation lemma: a function that only adds benign queue entries, removes handlers or
    timers, and adds post-authentication handlers only when the state is already past authentication *)
-Lemma hinv_mono_gen (JL : Prop) c p s s' :
+Lemma hinv_mono_gen (JL JH : Prop) c p s s' :
   (JL -> f_legacy_auth s = true /\ typ s = TClient /\ (f_tls_mandatory s = true -> is_secured s = true)) ->
+  (JH -> f_tls_mandatory s = false) ->
   HInv s -> eff c p s s' -> subl c cK = true ->
-  (forall x, pw p x -> benignE x \/ (x = (WLegacy, false, true) /\ JL)) ->
+  (forall x, pw p x -> benignE x \/ (x = (WLegacy, false, true) /\ JL) \/ (x = (WHandshake, false, true) /\ JH)) ->
   (forall k, pt p k -> k <> TMissingFeatures) ->
   (forall k, ph p k -> is_posth k = true /\ evP s) ->
   (forall i, pid p i -> i = IKLegacy \/ evP s) ->
@@ -296,7 +306,7 @@ Lemma hinv_mono_gen (JL : Prop) c p s s' :
   (hasTMF s' -> hasF s -> hasF s') ->
   HInv s'.
 Proof.
-  intros HJL [G Lv] E Sub Pw Pt Ph Pi Ps H6.
+  intros HJL HJH [G Lv] E Sub Pw Pt Ph Pi Ps H6.
   pose proof (subl_ok _ _ Sub) as W.
   destruct E as [U Lf St Sme [l [Q A]] Hh Hi Ht M HK IK C O].
   split.
@@ -306,7 +316,7 @@ Proof.
     + intros w Hw. apply (gi_S s G). apply M. exact Hw.
   - intro L'. destruct (live_back _ _ St L') as [L0 Est]. specialize (Lv L0). specialize (Lf L').
     assert (F : frame cK s s') by (eapply frame_weaken; [exact W|exact Lf]).
-    apply (linv_transfer s s' JL (F Fdis eq_refl) (F Fmand eq_refl) (F Flauth eq_refl) (F Ftyp eq_refl) (F Fraw eq_refl)
+    apply (linv_transfer s s' JL JH (F Fdis eq_refl) (F Fmand eq_refl) (F Flauth eq_refl) (F Ftyp eq_refl) (F Fraw eq_refl)
              (F Fst eq_refl) (F Fsec eq_refl) (F Ftlsp eq_refl) (F Ftlsf eq_refl) (F Fsasl eq_refl) (F Frp eq_refl)
              (F Foh eq_refl) (F Fps eq_refl) (F Fgs eq_refl) (F Fgf eq_refl)); try assumption.
     + intros k Hk. destruct (Hh k Hk) as [X|X]; [left; exact X|right; apply Ph; exact X].
@@ -326,7 +336,7 @@ Lemma hinv_mono c p s s' :
   (hasTMF s' -> hasF s -> hasF s') ->
   HInv s'.
 Proof.
-  intros H E Sub Pw. apply (hinv_mono_gen False c p s s'); try assumption; [intros []|]. intros x X. left. apply Pw. exact X.
+  intros H E Sub Pw. apply (hinv_mono_gen False False c p s s'); try assumption; [intros []|intros []|]. intros x X. left. apply Pw. exact X.
 Qed.
 
 Lemma In_hk_handlers k s : In k (hk s) <-> exists b, In (k, b) (handlers s).
@@ -427,6 +437,23 @@ Proof.
   - eapply ctx_step; eassumption.
 Qed.
 
+(* the component handshake digest counts as authentication data: it may be queued because MANDATORY_TLS is off *)
+Lemma jt_send_handshake ev po ld eo t :
+  JT ev po ld eo t -> f_tls_mandatory t = false -> JT ev po ld eo (send_gated WHandshake false true t).
+Proof.
+  intros [H C] M. split.
+  - eapply (hinv_mono_gen False True _ _ t (send_gated WHandshake false true t));
+      [intros []|intros _; exact M|exact H|apply send_gated_eff|reflexivity|..]; cbn.
+    + intros x [X|X]; [right; right; split; [exact X|exact I]|left; subst x; reflexivity].
+    + intros k [].
+    + intros k [].
+    + intros i [].
+    + intro X. discriminate X.
+    + intros _ X. eapply keep_hk; [apply send_gated_eff|reflexivity|exact X].
+  - eapply ctx_step; [apply send_gated_eff|reflexivity|reflexivity|reflexivity|..|exact C]; cbn;
+      try (intros ? []); try (intro X; discriminate X); try (intros _; reflexivity).
+Qed.
+
 (* removing a handler / id handler / timer at the end of a visit *)
 Lemma hinv_del c p t t' :
   HInv t -> eff c p t t' -> subl c cK = true -> fmem Fsme c = false ->
@@ -457,7 +484,8 @@ Lemma linv_set_oh h b t :
   (st t = Connected -> is_raw t = false -> b = true -> ps t <> PDepth0) ->
   (is_raw t = true -> h = OpenStub \/ h = OpenRaw) ->
   (h = OpenStub \/ h = OpenRaw -> is_raw t = true) ->
-  (h = OpenComponent -> (forall k, In k (hk t) -> is_baseh k = true) /\ (forall i, In i (ik t) -> i = IKLegacy) /\ ~ hasTMF t) ->
+  (h = OpenComponent -> (forall k, In k (hk t) -> is_baseh k = true) /\ (forall i, In i (ik t) -> i = IKLegacy) /\ ~ hasTMF t /\
+                        f_tls_mandatory t = false) ->
   LInv (set_oh h (set_reset_parser b t)).
 Proof.
   intros L OC OXF OXT OXS OPOA OPOT OPOP OO OR ORP ORAW OSTUB OCOMP. constructor.
@@ -622,7 +650,7 @@ Qed.
 Lemma call_id_J k now e eo s :
   JT (match k with IKLegacy => false | _ => true end) true true eo s ->
   JR (match k with IKLegacy => false | _ => true end) true true eo (call_id_handler k now e s).
-Proof. intros H. destruct k; cbv beta iota delta [call_id_handler]; repeat symJR. Qed.
+Proof. intros H. destruct k; cbv beta iota delta [call_id_handler say]; repeat symJR. Qed.
 Lemma sm_handle_J e ev eo s : JT ev true true eo s -> JT ev true true eo (sm_handle e s).
 Proof. intro H. unfold sm_handle. repeat peelJ. Qed.
 Lemma call_timed_J k now eo s : k <> TMissingFeatures -> JT false false false eo s -> J3 false false false eo (call_timed k now s).
@@ -1702,11 +1730,14 @@ Proof.
   assert (V1 : VPost (Some e, True) (fst r1)).
   { unfold r1. destruct (idk_of (e_id e)) as [k|]; [|exact VE].
     destruct (id_has k sE) eqn:Hi; [|exact VE].
+    destruct (is_user_id k) eqn:Uk; cbn [andb].
+    { (* the user's id handler: skipped during the negotiation, otherwise it only reports; it stays registered *)
+      destruct k; try discriminate Uk. destruct (negb (neg_done sE)); exact VE. }
     rewrite (pair_eta (call_id_handler k now e sE)). cbn [fst].
     apply vpost_id_del.
     assert (J : JR (match k with IKLegacy => false | _ => true end) true true (Some e, True) (call_id_handler k now e sE)).
     { apply call_id_J. destruct VE as [HE [_ CE]]. split; [exact HE|]. split; [|exact CE].
-      intro X. apply id_has_In in Hi. destruct k; [right; left; exact Hi|right; right; exact Hi|discriminate X]. }
+      intro X. apply (id_has_In k sE Uk) in Hi. destruct k; [right; left; exact Hi|right; right; exact Hi|discriminate X|discriminate Uk]. }
     unfold JR in J. destruct J as [HJ [_ CJ]]. split; [exact HJ|]. split; [intro X; discriminate X|exact CJ]. }
   clearbody r1. destruct r1 as [s1 o1]. cbn [fst] in V1.
   set (snapshot := map fst (filter (fun x => snd x) (handlers s1))).
@@ -1822,7 +1853,8 @@ Hypothesis OXP : forall k, In k (hk s') -> is_posth k = true ->
 Hypothesis OTMF : hasTMF s' -> hasF s'.
 Hypothesis OPOP : (oh s' = OpenSasl \/ oh s' = OpenCompress) -> noauth s'.
 Hypothesis OCOMP : oh s' = OpenComponent ->
-  (forall k, In k (hk s') -> is_baseh k = true) /\ (forall i, In i (ik s') -> i = IKLegacy) /\ ~ hasTMF s'.
+  (forall k, In k (hk s') -> is_baseh k = true) /\ (forall i, In i (ik s') -> i = IKLegacy) /\ ~ hasTMF s' /\
+  f_tls_mandatory s' = false.
 
 Lemma linv_open : LInv s'.
 Proof.
@@ -2009,7 +2041,7 @@ Proof.
     + exact I.
     + intros X. contradiction.
   - (* component *)
-    destruct (li_COMP s L O) as [B1 [B2 B3]].
+    destruct (li_COMP s L O) as [B1 [B2 [B3 B4]]].
     set (res := timed_add TMissingHandshake now (h_add HComponentHs (h_add HError (timed_reset_all now t)))).
     assert (E : eff [Fh; Ft] (mkP (fun _ => False) (fun k => k = HError \/ k = HComponentHs) (fun _ => False)
                                (fun k => k = TMissingHandshake)) t res).
@@ -2036,12 +2068,12 @@ Proof.
         * intros k X Y. specialize (HK _ X). destruct k; discriminate.
         * intro X. contradiction.
         * intros [X|X]; rewrite (Fr Foh eq_refl) in X; congruence.
-        * intros _. split; [exact HK|]. split; [rewrite (Fr Fid eq_refl); exact B2|exact NTM].
+        * intros _. split; [exact HK|]. split; [rewrite (Fr Fid eq_refl); exact B2|split; [exact NTM|rewrite (Fr Fmand eq_refl); exact B4]].
       + apply (ginv_conv t); [exact (ef_U _ _ _ _ E Ftlss eq_refl)|exact (ef_U _ _ _ _ E Fsmq eq_refl)|exact Gt].
       + rewrite (Fr Fst eq_refl). exact Ct.
       + exact I.
       + intros X. specialize (HK _ X). discriminate. }
-    destruct JR0 as [JR0 JC]. fold res. destruct (stream_id res); cbn [fst ret]; (split; [repeat peelJ|]).
+    destruct JR0 as [JR0 JC]. fold res. destruct (stream_id res); cbn [fst ret]; (split; [try (apply jt_send_handshake; [|rewrite (Fr Fmand eq_refl); exact B4]); repeat peelJ|]).
     + rewrite (ef_nd _ _ _ _ (send_gated_eff WHandshake false true res) eq_refl). exact JC.
     + rewrite (ef_nd _ _ _ _ (xmpp_disconnect_eff now res) eq_refl). exact JC.
   - (* raw *) split; [repeat peelJ|].
@@ -2239,9 +2271,9 @@ Proof.
   destruct (classic_live s) as [Ls|Ls]; [|eapply jt_dead; [exact Ls|exact G|apply auth_legacy_eff|exact T]].
   destruct (J Ls) as [J1 [J2 [J3 J4]]].
   split.
-  - eapply (hinv_mono_gen (f_legacy_auth s = true /\ typ s = TClient /\ (f_tls_mandatory s = true -> is_secured s = true)) _ _ s (auth_legacy now s));
-      [intro X; exact X|split; [exact G|exact Lv]|apply auth_legacy_eff|reflexivity|..]; cbn.
-    + unfold eLegacy. intros x [X|X]; [right; rewrite X, J4; auto|left; exact X].
+  - eapply (hinv_mono_gen (f_legacy_auth s = true /\ typ s = TClient /\ (f_tls_mandatory s = true -> is_secured s = true)) False _ _ s (auth_legacy now s));
+      [intro X; exact X|intros []|split; [exact G|exact Lv]|apply auth_legacy_eff|reflexivity|..]; cbn.
+    + unfold eLegacy. intros x [X|X]; [right; left; rewrite X, J4; auto|left; exact X].
     + intros k [X|X]; subst; discriminate.
     + tauto.
     + intros i X. left. exact X.
@@ -2492,7 +2524,7 @@ Proof.
   - intros _ _ X. change (reset_parser s = true) in X. congruence.
   - exact (li_RAW s L).
   - exact (li_STUB s L).
-  - intros _. split; [intros k X; rewrite (F3 k X); reflexivity|]. split; [exact F4|exact F5].
+  - intros OC. split; [intros k X; rewrite (F3 k X); reflexivity|]. split; [exact F4|split; [exact F5|exact (proj2 (proj2 (proj2 (li_COMP s L OC))))]].
   - intros x X. change (In x (sendq s)) in X. rewrite S2 in X. destruct X.
   - intros _ [[k [X Y]]|[x [X _]]]; [exfalso; apply (NH _ X); intro Z; subst; discriminate|].
     change (In x (sendq s)) in X. rewrite S2 in X. destruct X.
@@ -2732,9 +2764,14 @@ Lemma conn_reset_facts s : st s = Disconnected ->
   let r := conn_reset s in
   sendq r = [] /\ secured r = false /\ tls_support r = false /\ sasl r = [] /\ ik r = [] /\
   (forall k, In k (hk r) -> k = HUser) /\ (forall k, In k (tk r) -> k = TUser) /\
-  sm_enabled r = sm_enabled s /\ sw r = sw s /\ is_raw r = is_raw s /\ st r = Disconnected.
+  sm_enabled r = sm_enabled s /\ sw r = sw s /\ is_raw r = is_raw s /\ st r = Disconnected /\
+  f_tls_mandatory r = f_tls_mandatory s.
 Proof.
   intro D. unfold conn_reset. rewrite D. cbv zeta. repeat split; try reflexivity.
+  - (* handler_system_delete_all keeps the user's id handler only *)
+    unfold ik. cbn [idhandlers set_timed set_idhandlers].
+    match goal with |- context [filter _ (idhandlers ?x)] => generalize (idhandlers x) end.
+    intro l. induction l as [|[i b] l IH]; [reflexivity|]. cbn [filter fst]. destruct i; exact IH.
   - intros k H. unfold hk in H. cbn in H.
     rewrite (map_filter_proj (@fst hkind bool) (fun y => hkind_eqb y HUser)) in H.
     apply filter_In in H as [_ H]. apply hkind_eqb_eq in H. exact H.
@@ -2744,10 +2781,11 @@ Proof.
   - exact D.
 Qed.
 
-Lemma conn_connect_inv now t s : Inv s -> Inv (fst (fst (conn_connect now t s))).
+Lemma conn_connect_inv now t s :
+  Inv s -> (t = TComponent -> f_tls_mandatory s = false) -> Inv (fst (fst (conn_connect now t s))).
 Proof.
-  intro I. unfold conn_connect. destruct (st s) eqn:D; cbn [fst]; try exact I.
-  destruct (conn_reset_facts s D) as [R1 [R2 [R3 [R4 [R5 [R6 [R7 [R8 [R9 [R10 R11]]]]]]]]]].
+  intros I HM. unfold conn_connect. destruct (st s) eqn:D; cbn [fst]; try exact I.
+  destruct (conn_reset_facts s D) as [R1 [R2 [R3 [R4 [R5 [R6 [R7 [R8 [R9 [R10 [R11 R12]]]]]]]]]]].
   cbv zeta in *. set (r := conn_reset s) in *. clearbody r.
   destruct I as [[[G1 G2] _] [_ G]]. specialize (G D).
   set (s1 := set_typ t (set_sm_alloc true r)).
@@ -2780,7 +2818,9 @@ Proof.
       split; [exact HK|split; [exact IK|exact NT]].
     + intros [X|X]; change (h = OpenStub) in X || change (h = OpenRaw) in X; change (is_raw r = true);
         unfold h in X; change (is_raw s1) with (is_raw r) in X; destruct (is_raw r); [reflexivity|destruct t; discriminate|reflexivity|destruct t; discriminate].
-    + intros _. split; [intros k0 X; rewrite (HK _ X); reflexivity|split; [exact IK|exact NT]].
+    + intros X. split; [intros k0 X0; rewrite (HK _ X0); reflexivity|split; [exact IK|split; [exact NT|]]].
+      change (h = OpenComponent) in X. change (f_tls_mandatory r = false). rewrite R12. apply HM.
+      unfold h in X. destruct (is_raw s1); [discriminate X|]. destruct t; [discriminate X|reflexivity].
     + intros x X. change (In x (sendq r)) in X. rewrite R1 in X. destruct X.
     + intros _ [[k0 [X Y]]|[x [X _]]]; [specialize (HK _ X); subst; discriminate|]. change (In x (sendq r)) in X. rewrite R1 in X. destruct X.
     + intros _ x X. change (In x (sendq r)) in X. rewrite R1 in X. destruct X.
@@ -2810,14 +2850,26 @@ Proof.
   intro I. unfold connect_client. cbv zeta.
   set (s1 := if negb (jid_set s) && cert_set s then _ else s).
   assert (I1 : Inv s1) by (unfold s1; break_if; [revert I; inv_conv|exact I]). clearbody s1.
-  break_if; cbn [fst]; [exact I1|]. apply conn_connect_inv. revert I1. inv_conv.
+  break_if; cbn [fst]; [exact I1|]. apply conn_connect_inv; [revert I1; inv_conv|intro X; discriminate X].
 Qed.
-Lemma connect_component_inv now s : Inv s -> Inv (fst (fst (connect_component now s))).
+(* DISABLE_TLS and MANDATORY_TLS exclude each other (xmpp_conn_set_flags refuses the combination) *)
+Definition Kf (s : state) : Prop := f_tls_disabled s = true -> f_tls_mandatory s = false.
+Lemma set_flags_Kf w s : Kf s -> Kf (fst (set_flags w s)).
 Proof.
-  intro I. unfold connect_component. break_if; cbn [fst]; [exact I|]. cbv zeta.
+  unfold Kf. intros H. unfold set_flags. destruct (st s); try exact H.
+  destruct (testbit w flag_conflict_a && existsb (testbit w) flag_conflict_b) eqn:C; cbn [fst]; [exact H|].
+  cbv zeta. cbn [fst]. change (testbit w FLAG_DISABLE_TLS = true -> testbit w FLAG_MANDATORY_TLS = false).
+  intros Dd. change flag_conflict_a with FLAG_DISABLE_TLS in C. rewrite Dd in C. cbn [andb] in C.
+  unfold flag_conflict_b in C. cbn [existsb] in C. apply orb_false_iff in C. apply C.
+Qed.
+Lemma connect_component_inv now s : Inv s -> Kf s -> Inv (fst (fst (connect_component now s))).
+Proof.
+  intros I K. unfold connect_component. break_if; cbn [fst]; [exact I|]. cbv zeta.
   pose proof (set_flags_inv (if f_tls_disabled s then flags_readback s else flags_readback s + FLAG_DISABLE_TLS) s I) as I1.
-  destruct (set_flags (if f_tls_disabled s then flags_readback s else flags_readback s + FLAG_DISABLE_TLS) s) as [s1 rc]. cbn [fst] in I1.
-  break_if; cbn [fst]; [exact I1|]. apply conn_connect_inv. revert I1. inv_conv.
+  pose proof (set_flags_Kf (if f_tls_disabled s then flags_readback s else flags_readback s + FLAG_DISABLE_TLS) s K) as K1.
+  destruct (set_flags (if f_tls_disabled s then flags_readback s else flags_readback s + FLAG_DISABLE_TLS) s) as [s1 rc]. cbn [fst] in I1, K1.
+  break_if; cbn [fst]; [exact I1|]. apply conn_connect_inv; [revert I1; inv_conv|].
+  intros _. apply K1. destruct (f_tls_disabled s1); [reflexivity|discriminate].
 Qed.
 
 Lemma open_stream_inv s : Inv s -> is_raw s = true -> Inv (conn_open_stream (prepare_reset OpenRaw s)).
@@ -2845,23 +2897,23 @@ Proof.
     [pw_tac|pt_tac|cbn; tauto|cbn; tauto].
 Qed.
 
-Lemma step0_inv s o : Inv s -> Inv (fst (step0 s o)).
+Lemma step0_inv s o : Inv s -> Kf s -> Inv (fst (step0 s o)).
 Proof.
-  intro I. unfold step0. destruct (crashed s); [exact I|].
+  intros I K. unfold step0. destruct (crashed s); [exact I|].
   destruct o.
   - pose proof (set_flags_inv w s I) as X. destruct (set_flags w s). exact X.
   - destruct (st s) eqn:D; cbn [fst ret]; try exact I. eapply inv_disc_conv; [exact I|exact D|exact D|reflexivity|reflexivity|reflexivity].
   - destruct (st s) eqn:D; cbn [fst ret]; try exact I. eapply inv_disc_conv; [exact I|exact D|exact D|reflexivity|reflexivity|reflexivity].
   - destruct (st s) eqn:D; cbn [fst ret]; try exact I. eapply inv_disc_conv; [exact I|exact D|exact D|reflexivity|reflexivity|reflexivity].
   - destruct (st s) eqn:D; cbn [fst ret]; try exact I.
-    eapply inv_disc_conv; [exact I|exact D|..]; destruct stanza, timed; cbn; unfold h_add, timed_add; repeat break_if; try reflexivity; exact D.
+    eapply inv_disc_conv; [exact I|exact D|..]; destruct stanza, timed; cbn; unfold h_add, id_add, timed_add; repeat break_if; try reflexivity; exact D.
   - destruct (st s) eqn:D; cbn [fst ret]; try exact I. eapply inv_disc_conv; [exact I|exact D|exact D|reflexivity|reflexivity|reflexivity].
   - cbn [fst ret]. revert I. inv_conv.
   - pose proof (connect_client_inv now s I) as X. destruct (connect_client now s) as [[s1 o1] rc]. exact X.
   - destruct (st s) eqn:D; cbn [fst]; try exact I.
     assert (I1 : Inv (set_is_raw true s)) by (eapply inv_disc_conv; [exact I|exact D|exact D|reflexivity|reflexivity|reflexivity]).
     pose proof (connect_client_inv now _ I1) as X. destruct (connect_client now (set_is_raw true s)) as [[s1 o1] rc]. exact X.
-  - pose proof (connect_component_inv now s I) as X. destruct (connect_component now s) as [[s1 o1] rc]. exact X.
+  - pose proof (connect_component_inv now s I K) as X. destruct (connect_component now s) as [[s1 o1] rc]. exact X.
   - apply run_once_inv. exact I.
   - cbn [fst ret]. apply inv_xmpp_disconnect. exact I.
   - cbn [fst ret]. apply inv_send_user. exact I.
@@ -2871,9 +2923,9 @@ Proof.
   - destruct (st s) eqn:D; cbn [fst ret]; try exact I; apply inv_release; exact I.
 Qed.
 
-Lemma step_inv s o : Inv s -> Inv (fst (step s o)).
+Lemma step_inv s o : Inv s -> Kf s -> Inv (fst (step s o)).
 Proof.
-  intro I. unfold step. pose proof (step0_inv s o I) as X. destruct (step0 s o) as [s1 outs]. cbn [fst] in *.
+  intros I K. unfold step. pose proof (step0_inv s o I K) as X. destruct (step0 s o) as [s1 outs]. cbn [fst] in *.
   apply inv_note_outs. exact X.
 Qed.
 
@@ -3091,11 +3143,23 @@ Proof.
     destruct (li_L s (linv_of_wire s I C) x X W) as [A B]. rewrite A, B. reflexivity.
 Qed.
 
+(* the invariant of this file together with the lifecycle invariant of NegFrame_C13, which knows that
+   DISABLE_TLS (forced by connect_component) and MANDATORY_TLS exclude each other *)
+Definition Inv2 (s : state) : Prop := Inv s /\ LV.Proofs.NegFrame_C13.TopInv s.
+Lemma inv2_Kf s : Inv2 s -> Kf s.
+Proof. intros [_ T]. exact (LV.Proofs.NegFrame_C13.Inv_Df _ _ _ _ T). Qed.
+Lemma step_inv2 s o : Inv2 s -> Inv2 (fst (step s o)).
+Proof.
+  intros I2. split; [apply step_inv; [exact (proj1 I2)|exact (inv2_Kf s I2)]|apply LV.Proofs.NegFrame_C13.step_inv; exact (proj2 I2)].
+Qed.
+Lemma init_inv2 : Inv2 init_state.
+Proof. split; [exact init_inv|exact LV.Proofs.NegFrame_C13.TopInv_init]. Qed.
+
 Theorem mandatory_ok : forall ops, check_run ok_mandatory init_state ops = true.
-Proof. intro ops. apply (check_run_inv ok_mandatory Inv step_inv step_ok_mandatory ops init_state init_inv). Qed.
+Proof. intro ops. apply (check_run_inv ok_mandatory Inv2 step_inv2 (fun s o I => step_ok_mandatory s o (proj1 I)) ops init_state init_inv2). Qed.
 Theorem disabled_ok : forall ops, check_run ok_disabled init_state ops = true.
-Proof. intro ops. apply (check_run_inv ok_disabled Inv step_inv step_ok_disabled ops init_state init_inv). Qed.
+Proof. intro ops. apply (check_run_inv ok_disabled Inv2 step_inv2 (fun s o I => step_ok_disabled s o (proj1 I)) ops init_state init_inv2). Qed.
 Theorem plain_ok : forall ops, check_run ok_plain init_state ops = true.
-Proof. intro ops. apply (check_run_inv ok_plain Inv step_inv step_ok_plain ops init_state init_inv). Qed.
+Proof. intro ops. apply (check_run_inv ok_plain Inv2 step_inv2 (fun s o I => step_ok_plain s o (proj1 I)) ops init_state init_inv2). Qed.
 Theorem legacy_ok : forall ops, check_run ok_legacy init_state ops = true.
-Proof. intro ops. apply (check_run_inv ok_legacy Inv step_inv step_ok_legacy ops init_state init_inv). Qed.
+Proof. intro ops. apply (check_run_inv ok_legacy Inv2 step_inv2 (fun s o I => step_ok_legacy s o (proj1 I)) ops init_state init_inv2). Qed.
